@@ -138,8 +138,17 @@ def _stress_cases(thorough):
          "variants": base + [{"label": "enn1", "mode": "enforce", "maxN3": 1}, {"label": "enn3", "mode": "enforce", "maxN3": 3}]},
         {"id": "st-n3max", "nodes": one, "signed": True, "exp": "any", "stress": {"n3iter": 600, "nxQuery": True}, "variants": base},
     ]
+    cs += [
+        {"id": "st-manyns7", "nodes": one, "signed": False, "exp": "answer", "stress": {"manyNS": 7},
+         "variants": [{"label": "off", "mode": "off"}, {"label": "sh1", "mode": "shadow", "maxOut": 1, "maxInt": 1},
+                      {"label": "en4", "mode": "enforce", "maxOut": 4, "maxInt": 2}, {"label": "en9", "mode": "enforce", "maxOut": 9, "maxInt": 2},
+                      {"label": "enU", "mode": "enforce", "rel": "under"}, {"label": "endef", "mode": "enforce"}]},
+    ]
     if thorough:
         cs += [
+            {"id": "st-manyns13", "nodes": chain, "signed": False, "exp": "answer", "stress": {"manyNS": 13},
+             "variants": [{"label": "off", "mode": "off"}, {"label": "sh1", "mode": "shadow", "maxOut": 1, "maxInt": 1},
+                          {"label": "en12", "mode": "enforce", "maxOut": 12, "maxInt": 2}, {"label": "enU", "mode": "enforce", "rel": "under"}]},
             {"id": "st-sigs5chain", "nodes": chain, "signed": True, "exp": "answer", "stress": {"sigs": 5, "keys": 2},
              "variants": base + [{"label": "enr2", "mode": "enforce", "maxRRSig": 2}, {"label": "ens4", "mode": "enforce", "maxSig": 4}]},
             {"id": "st-n3chain", "nodes": chain, "signed": True, "exp": "any", "stress": {"n3iter": 50, "nxQuery": True},
@@ -190,7 +199,7 @@ def run_topo(ctx):
         rs = ctx.tlc_simulate(MOD, "MC_RW.tla", "Sim_RW_n4.cfg", num=160, depth=400, timeout=1200)
         t4 = _summaries(rs)
     # ---- 2. selection ---------------------------------------------------------------------
-    n2, n3, n4 = (24, 16, 0) if not thorough else (len(t2), 150, 80)
+    n2, n3, n4 = (20, 14, 0) if not thorough else (len(t2), 110, 60)
     picks = [("a", t2, k) for k in _select(t2, n2, rnd)] + [("b", t3, k) for k in _select(t3, n3, rnd)] + \
             [("c", t4, k) for k in _select(t4, n4, rnd)]
     cases = []
@@ -211,7 +220,7 @@ def run_topo(ctx):
     for i in range(0, len(chunks), par):
         results, errors, ths = {}, {}, []
         for j, ch in enumerate(chunks[i:i + par]):
-            th = threading.Thread(target=_drive, args=(ctx, "c12topo_%d" % (i + j), ch, 6 if par == 1 else 4, results, errors))
+            th = threading.Thread(target=_drive, args=(ctx, "c12topo_%d" % (i + j), ch, 8 if par == 1 else 5, results, errors))
             th.start()
             ths.append(th)
         for th in ths:
